@@ -572,7 +572,7 @@ class Model:
                     linear_sc = scale.linear
                     const_sc = scale.const
                     aff_scale = linear_sc@drule + const_sc.reshape(const_sc.size)
-                aff_scale = aff_scale.reshape(constr.affine_scale.shape)
+                    aff_scale = aff_scale.reshape(constr.affine_scale.shape)
 
                 if isinstance(aff_in, RoAffine):
                     aff_in = aff_in.affine
